@@ -7,6 +7,7 @@ import (
 	"strconv"
 	"strings"
 
+	gbitmap "github.com/shogo82148/go-imaging/bitmap"
 	qrcode "github.com/shogo82148/qrcode"
 	"github.com/shogo82148/qrcode/internal/bitmap"
 	"github.com/shogo82148/qrcode/microqr"
@@ -87,6 +88,21 @@ func errOr(err error, ok string) string {
 	return "ok " + ok
 }
 
+// emitted renders a bitmap returned by EncodeToBitmap, after looking once more at the bitmap the PREVIOUS call returned:
+// a bitmap handed to the caller belongs to the caller, a later call must not change it.
+var lastEmitted *gbitmap.Image
+var lastEmittedStr string
+
+func emitted(img *gbitmap.Image) string {
+	s := showGImage(img)
+	if lastEmitted != nil && showGImage(lastEmitted) != lastEmittedStr {
+		lastEmitted, lastEmittedStr = img, s
+		return "aliased the bitmap returned by the previous EncodeToBitmap call was changed by this call"
+	}
+	lastEmitted, lastEmittedStr = img, s
+	return "ok " + s
+}
+
 func init() {
 	// ---------------- QR
 	ops["qr.enc"] = func(a []string) string {
@@ -95,7 +111,7 @@ func init() {
 		if err != nil {
 			return "err " + err.Error()
 		}
-		return "ok " + showGImage(img)
+		return emitted(img)
 	}
 	ops["qr.segs"] = func(a []string) string {
 		q := &qrcode.QRCode{Version: qrcode.Version(atoi(a[0])), Level: qrcode.Level(atoi(a[1])), Segments: qrSegs(parseSegs(a[2:]))}
@@ -151,7 +167,7 @@ func init() {
 		if err != nil {
 			return "err " + err.Error()
 		}
-		return "ok " + showGImage(img)
+		return emitted(img)
 	}
 	ops["mq.segs"] = func(a []string) string {
 		q := &microqr.QRCode{Version: microqr.Version(atoi(a[0])), Level: microqr.Level(atoi(a[1])), Segments: mqSegs(parseSegs(a[2:]))}
@@ -205,7 +221,7 @@ func init() {
 		if err != nil {
 			return "err " + err.Error()
 		}
-		return "ok " + showGImage(img)
+		return emitted(img)
 	}
 	ops["rm.segs"] = func(a []string) string {
 		q := &rmqr.QRCode{Version: rmqr.Version(atoi(a[0])), Level: rmqr.Level(atoi(a[1])), Segments: rmSegs(parseSegs(a[2:]))}
